@@ -1,7 +1,7 @@
 """Source of truth for MANIFEST.json (tools/mkmanifest.py turns it into JSON)."""
 
 ENGINES = [
-    {"name": "PROG", "path": "mc/prog.py, mc/proggen.py", "serves_properties": ["C01", "C05"],
+    {"name": "PROG", "path": "mc/prog.py, mc/proggen.py", "serves_properties": ["C01", "C05", "C14"],
      "kind_free_text": "bounded-exhaustive enumerator of component programs (AST + printer) executed on the real library and compared with a reference interpreter"},
     {"name": "SEQ", "path": "mc/seq.py", "serves_properties": ["C18"],
      "kind_free_text": "explicit-state BFS over operation histories on the real objects, canonical-state merging, reference model per step, unmerged cross-check"},
@@ -30,6 +30,16 @@ CHECKS = {
                 "provider-chain reference model (output, KeyError class, injected field names, provided kwargs never template variables, empty provide registries after success); "
                 "plus all render histories <= 3 over 6 representative pages (each render equals its solo result).",
         "note": "provide tags between a component tag and its fill are outside the profile; bounded program size; single thread (threads are C07)",
+    },
+    "C14": {
+        "engine": "PROG",
+        "design_ref": "DESIGN.md 2.1, 3/C14",
+        "technique": "bounded-exhaustive program enumeration on the real renderer vs root-set reference model (html.parser on both sides)",
+        "text": "Every program of the element profile (text, for, <div> elements, slot, component tags with fills, two generated components echoing Component.id) "
+                "with <= N nodes (quick: N<=4 both modes + N=5 loop-free django; thorough: N<=5 / 6) is rendered by the real library; the final HTML is parsed and each element's "
+                "set of data-djc-id-* attributes must equal the set of instances for which the reference interpreter says it is a root; ids distinct and equal to Component.id. "
+                "Depth families chain(d)/nest(d) up to d=200 (quick) / 2000 (thorough).",
+        "note": "html.parser trusted; attribute insertion itself happens in the external djc_core_html_parser wheel (not part of the repository)",
     },
     "C18": {
         "engine": "SEQ",
